@@ -35,6 +35,22 @@ theorem getKid_setKid_ne (b b' : String) (k : Key) (l : Kids) (h : b' ≠ b) :
       · rw [if_pos hx', if_pos hx']
       · rw [if_neg hx', if_neg hx', ih]
 
+theorem mem_setKid {b : String} {c : Key} {l : Kids} {kv : String × Key} (h : kv ∈ setKid b c l) :
+    kv = (b, c) ∨ kv ∈ l := by
+  induction l with
+  | nil => simp [setKid] at h; exact Or.inl h
+  | cons x xs ih =>
+    unfold setKid at h
+    split at h
+    · rcases List.mem_cons.mp h with e | e
+      · exact Or.inl e
+      · exact Or.inr (List.mem_cons_of_mem _ e)
+    · rcases List.mem_cons.mp h with e | e
+      · exact Or.inr (e ▸ List.mem_cons_self ..)
+      · rcases ih e with e' | e'
+        · exact Or.inl e'
+        · exact Or.inr (List.mem_cons_of_mem _ e')
+
 theorem walkKids_snoc (kids : Key → Kids) (k : Key) (p : Path) (x : String) :
     walkKids kids k (p ++ [x]) = (walkKids kids k p).bind fun c => getKid x (kids c) := by
   induction p generalizing k with
@@ -441,6 +457,8 @@ structure Inv (ms : List MEnt) (i : Nat) (sm : MState) (sd : DState) (P : List P
   freshNl : ∀ j, i ≤ j → sm.nl (.ent j) = initNl ms (.ent j)
   /-- the memory store creates its root directory lazily, before the first child is linked -/
   rootImp : sm.kids .root ≠ [] → [] ∈ sm.imps
+  /-- children maps only point at existing nodes -/
+  kidsCreated : ∀ k kv, kv ∈ sd.kids k → Created ms i sm.imps kv.2
 
 def Admissible (ms : List MEnt) (i : Nat) (q : Path) : Prop :=
   ∀ n, 0 < n → n ≤ q.length → ∀ (j : Nat) (m : MEnt), ms[j]? = some m → m.e.type ≠ "chunk" →
@@ -506,7 +524,13 @@ theorem inv_create_imp {ms : List MEnt} {i : Nat} {sm : MState} {sd : DState} {P
       (setNode sd (.imp d) (writeAttr {} rootAttr)) (d :: P) δ := by
   have hlook : look ms i sm.imps d = none := by
     unfold look; rw [if_neg hne, hl]; simp [hnot]
-  refine ⟨inv.kids, ?_, ?_, ?_, ?_, ?_, ?_, inv.freshNl, fun h => List.mem_cons_of_mem _ (inv.rootImp h)⟩
+  refine ⟨inv.kids, ?_, ?_, ?_, ?_, ?_, ?_, inv.freshNl, fun h => List.mem_cons_of_mem _ (inv.rootImp h), ?_⟩
+  rotate_right
+  · intro k kv hkv
+    have := inv.kidsCreated k kv hkv
+    by_cases hkd : kv.2 = .imp d
+    · rw [hkd] at this; exact absurd this.1 hnot
+    · exact (created_cons hkd).mpr this
   · intro p
     show walkKids sd.kids .root p = _
     rw [inv.walk p]
@@ -617,7 +641,18 @@ theorem inv_link_pending {ms : List MEnt} (ok : TreeOK ms) {i : Nat} {sm : MStat
   have hsmimps : (mAddChild ms sm pk b (.imp (q ++ [b]))).imps = sm.imps := rfl
   have hsmnl : (mAddChild ms sm pk b (.imp (q ++ [b]))).nl = fun k => if k = pk then sm.nl k + 1 else sm.nl k := by
     simp [mAddChild, keyType_imp]
-  refine ⟨?_, ?_, inv.impsNone, ?_, ?_, ?_, ?_, ?_, ?_⟩
+  refine ⟨?_, ?_, inv.impsNone, ?_, ?_, ?_, ?_, ?_, ?_, ?_⟩
+  rotate_right
+  · intro k kv hkv
+    rw [hsdkids] at hkv
+    show Created ms i sm.imps kv.2
+    by_cases hkp : k = pk
+    · simp only [hkp, ↓reduceIte] at hkv
+      rcases mem_setKid hkv with e | e
+      · rw [e]; exact ⟨hpend.1, hpend.2⟩
+      · exact inv.kidsCreated pk kv e
+    · simp only [hkp, ↓reduceIte] at hkv
+      exact inv.kidsCreated k kv hkv
   rotate_right
   · intro h
     by_cases hpk : pk = .root
@@ -706,7 +741,8 @@ theorem inv_create_root {ms : List MEnt} (ok : TreeOK ms) {i : Nat} {sm : MState
         · exact absurd h1 h2
         · exact ⟨h1, h2⟩
       · rintro ⟨h1, h2⟩; exact ⟨Or.inr h1, h2⟩
-  refine ⟨inv.kids, ?_, ?_, ?_, ?_, ?_, inv.pendKids, inv.freshNl, fun _ => List.mem_cons_self ..⟩
+  refine ⟨inv.kids, ?_, ?_, ?_, ?_, ?_, inv.pendKids, inv.freshNl, fun _ => List.mem_cons_self ..,
+    fun k kv hkv => (hcr kv.2).mpr (inv.kidsCreated k kv hkv)⟩
   · intro p
     rw [inv.walk p]
     by_cases hp : p = []
@@ -872,7 +908,9 @@ namespace SV.Toc
 theorem Inv.congr_db {ms : List MEnt} {i : Nat} {sm : MState} {sd sd' : DState} {P : List Path}
     {δ : Key → Int} (inv : Inv ms i sm sd P δ) (hk : sd'.kids = sd.kids) (hn : sd'.nodes = sd.nodes) :
     Inv ms i sm sd' P δ := by
-  refine ⟨?_, ?_, inv.impsNone, inv.pend, ?_, ?_, ?_, inv.freshNl, inv.rootImp⟩
+  refine ⟨?_, ?_, inv.impsNone, inv.pend, ?_, ?_, ?_, inv.freshNl, inv.rootImp, ?_⟩
+  rotate_right
+  · rw [hk]; exact inv.kidsCreated
   · rw [hk]; exact inv.kids
   · rw [hk]; exact inv.walk
   · rw [hn]; exact inv.node
@@ -915,7 +953,8 @@ theorem look_succ_ne {ms : List MEnt} (ok : TreeOK ms) (i : Nat) (imps : List Pa
 theorem inv_setNode_fresh {ms : List MEnt} {i : Nat} {sm : MState} {sd : DState} {P : List Path}
     {δ : Key → Int} (inv : Inv ms i sm sd P δ) (j : Nat) (hj : i ≤ j) (b : DbAttr) :
     Inv ms i sm (setNode sd (.ent j) b) P δ := by
-  refine ⟨inv.kids, inv.walk, inv.impsNone, inv.pend, ?_, inv.noKids, inv.pendKids, inv.freshNl, inv.rootImp⟩
+  refine ⟨inv.kids, inv.walk, inv.impsNone, inv.pend, ?_, inv.noKids, inv.pendKids, inv.freshNl, inv.rootImp,
+    inv.kidsCreated⟩
   intro k hk
   obtain ⟨b', h1, h2, h3⟩ := inv.node k hk
   have : k ≠ .ent j := by
@@ -980,7 +1019,18 @@ theorem inv_link_entry {ms : List MEnt} (ok : TreeOK ms) {i : Nat} {sm : MState}
       · rintro (h | ⟨h1, h2⟩)
         · subst h; exact ⟨by omega, m, hm, hc, hh⟩
         · exact ⟨by omega, h2⟩
-  refine ⟨?_, ?_, inv.impsNone, ?_, ?_, ?_, ?_, ?_, ?_⟩
+  refine ⟨?_, ?_, inv.impsNone, ?_, ?_, ?_, ?_, ?_, ?_, ?_⟩
+  rotate_right
+  · intro k kv hkv
+    rw [hsdkids] at hkv
+    show Created ms (i + 1) sm.imps kv.2
+    by_cases hkp : k = pk
+    · simp only [hkp, ↓reduceIte] at hkv
+      rcases mem_setKid hkv with e | e
+      · rw [e]; exact (hcr _).mpr (Or.inl rfl)
+      · exact (hcr _).mpr (Or.inr (inv.kidsCreated pk kv e))
+    · simp only [hkp, ↓reduceIte] at hkv
+      exact (hcr _).mpr (Or.inr (inv.kidsCreated k kv hkv))
   rotate_right
   · intro h
     by_cases hpk : pk = .root
@@ -1221,5 +1271,924 @@ theorem mGetSource_ok {ms : List MEnt} (ok : TreeOK ms) (s : MState) (bound : Na
       simp only [hle, ↓reduceDIte, hl]
       exact ih t ht mt hmt hct (n + 1) (by have := cnt_lt ht hm hc; omega)
     · simp [hh]
+
+end SV.Toc
+
+/-! # Part 2: the steps of both interpreters and the joint run -/
+namespace SV.Toc
+
+theorem isDirKey_keyType {ms : List MEnt} {k : Key} (h : ¬ IsDirKey ms k) : keyType ms k ≠ "dir" := by
+  cases k with
+  | root => exact absurd trivial h
+  | imp p => exact absurd trivial h
+  | ent j =>
+    intro e
+    apply h
+    cases hm : ms[j]? with
+    | none => simp [keyType, hm] at e
+    | some m =>
+      refine ⟨m, hm, ?_⟩
+      simpa [keyType, hm] using e
+
+/-- hardlink entry `i`: the target's link count has been raised, the parent exists; linking the
+name to the target completes the step. -/
+theorem inv_link_hardlink {ms : List MEnt} (ok : TreeOK ms) {i : Nat} {sm : MState} {sd : DState}
+    (q : Path) (b : String) (pk org : Key) (m : MEnt)
+    (inv : Inv ms i sm sd [] (fun k => if k = org then 1 else 0))
+    (hm : ms[i]? = some m) (hh : m.e.type = "hardlink")
+    (hpath : m.path = q ++ [b])
+    (hq : look ms i sm.imps q = some pk) (hdir : IsDirKey ms pk) (hroot : pk = .root → [] ∈ sm.imps)
+    (horg : resolveKey ms i = org) (hoc : Created ms i sm.imps org) (hod : ¬ IsDirKey ms org) :
+    Inv ms (i + 1)
+      (mAddChild ms { sm with nl := fun k =>
+          if k = org then (if k = .ent i then sm.nl k + 1 else sm.nl k) + 1
+          else (if k = .ent i then sm.nl k + 1 else sm.nl k) } pk b org)
+      (dSetChild sd pk b org false) [] (fun _ => 0) := by
+  have hc : m.e.type ≠ "chunk" := by rw [hh]; decide
+  have hnc : NonChunkAt ms i (q ++ [b]) := ⟨m, hm, hc, hpath⟩
+  have hpkc := look_created ok hq
+  have hne : org ≠ pk := fun e => hod (e ▸ hdir)
+  have hoi : org ≠ .ent i := by
+    intro e; rw [e] at hoc; exact absurd hoc.1 (by omega)
+  have hkt : keyType ms org ≠ "dir" := isDirKey_keyType hod
+  have hsdkids : (dSetChild sd pk b org false).kids =
+      fun k => if k = pk then setKid b org (sd.kids k) else sd.kids k := by
+    simp [dSetChild]
+  have hsdnodes : (dSetChild sd pk b org false).nodes = sd.nodes := by simp [dSetChild]
+  have hlookd : look ms i sm.imps (q ++ [b]) = none := by
+    have hl := (lastIdx_eq_some_iff ms ok.nodup _ i).mpr hnc
+    have hne' : q ++ [b] ≠ [] := by simp
+    unfold look; rw [if_neg hne', hl]; simp
+  have hkidso : sd.kids org = [] := inv.noKids org (fun ⟨_, h2⟩ => hod h2)
+  have hcr : ∀ k, Created ms (i + 1) sm.imps k ↔ Created ms i sm.imps k := by
+    intro k
+    cases k with
+    | root => simp [Created]
+    | imp p => simp [Created]
+    | ent j =>
+      simp only [Created]
+      constructor
+      · rintro ⟨h1, m', h2, h3, h4⟩
+        refine ⟨?_, m', h2, h3, h4⟩
+        by_cases hji : j = i
+        · subst hji; rw [hm] at h2; cases h2; exact absurd hh h4
+        · omega
+      · rintro ⟨h1, h2⟩; exact ⟨by omega, h2⟩
+  refine ⟨?_, ?_, inv.impsNone, ?_, ?_, ?_, ?_, ?_, ?_, ?_⟩
+  rotate_right
+  · intro k kv hkv
+    rw [hsdkids] at hkv
+    show Created ms (i + 1) sm.imps kv.2
+    by_cases hkp : k = pk
+    · simp only [hkp, ↓reduceIte] at hkv
+      rcases mem_setKid hkv with e | e
+      · rw [e]; exact (hcr _).mpr hoc
+      · exact (hcr _).mpr (inv.kidsCreated pk kv e)
+    · simp only [hkp, ↓reduceIte] at hkv
+      exact (hcr _).mpr (inv.kidsCreated k kv hkv)
+  rotate_right
+  · intro h
+    by_cases hpk : pk = .root
+    · exact hroot hpk
+    · apply inv.rootImp
+      simpa [mAddChild, Ne.symm hpk] using h
+  · intro k
+    rw [hsdkids]
+    simp only [mAddChild]
+    rw [inv.kids]
+  · intro p
+    rw [hsdkids]
+    have hw : ∀ p, walkKids sd.kids .root p = look ms i sm.imps p := by
+      intro p; have := inv.walk p; simpa using this
+    have := walk_link sd.kids (look ms i sm.imps) q b pk org hw hq hlookd
+      (fun p hp => look_dir_unique ok hp hq hdir) hkidso hne p
+    rw [this]
+    simp only [List.not_mem_nil, ↓reduceIte]
+    show _ = look ms (i + 1) sm.imps p
+    by_cases hpd : p = q ++ [b]
+    · subst hpd; rw [look_succ_at ok i _ _ hnc, horg]; simp
+    · have : ¬ NonChunkAt ms i p := by
+        intro h; exact hpd (by
+          obtain ⟨m', hm', _, hp'⟩ := h
+          rw [hm] at hm'; cases hm'; rw [← hp', hpath])
+      rw [look_succ_ne ok i _ _ this]; simp [hpd]
+  · intro p hp; cases hp
+  · intro k hk
+    rw [hsdnodes]
+    have hko := (hcr k).mp hk
+    obtain ⟨b', h1, h2, h3⟩ := inv.node k hko
+    have hki : k ≠ .ent i := by
+      intro e; subst e; exact absurd hko.1 (by omega)
+    refine ⟨b', h1, h2, ?_⟩
+    rw [h3]
+    unfold nlEff
+    simp only [mAddChild, hkt, ↓reduceIte, hki]
+    by_cases hko' : k = org
+    · subst hko'
+      have : k ≠ .root := by
+        intro e; subst e
+        obtain ⟨r, hr⟩ := resolveF_is_ent ms i i
+        unfold resolveKey at horg; rw [hr] at horg; cases horg
+      simp [this]
+    · simp [hko']
+  · intro k hk
+    rw [hsdkids]
+    have hkp : k ≠ pk := by
+      intro e; subst e
+      exact hk ⟨(hcr k).mpr hpkc, hdir⟩
+    simp only [hkp, ↓reduceIte]
+    apply inv.noKids
+    intro ⟨h1, h2⟩
+    exact hk ⟨(hcr k).mpr h1, h2⟩
+  · intro p hp; cases hp
+  · intro j hj
+    have hji : Key.ent j ≠ .ent i := by intro e; cases e; omega
+    have hjo : Key.ent j ≠ org := by
+      intro e; rw [← e] at hoc; exact absurd hoc.1 (by omega)
+    simp only [mAddChild, hkt, ↓reduceIte, hjo, hji]
+    exact inv.freshNl j (by omega)
+
+end SV.Toc
+
+namespace SV.Toc
+
+/-- the part of the db state the chunk bookkeeping lives in -/
+structure CState where
+  lastEnt : Option Key := none
+  lastEntSize : Int := 0
+  chunks : Key → List Chunk := fun _ => []
+
+def cproj (sd : DState) : CState := ⟨sd.lastEnt, sd.lastEntSize, sd.chunks⟩
+
+def dbChunkSize (lastEntSize : Int) (e : Entry) : Int :=
+  let cs := if e.type = "chunk" ∧ e.chunkSize = 0 then lastEntSize - e.chunkOffset else e.chunkSize
+  if cs = 0 ∧ e.size ≠ 0 then e.size else cs
+
+def dbRow (lastEntSize : Int) (e : Entry) : Chunk :=
+  { chunkOffset := e.chunkOffset, chunkSize := dbChunkSize lastEntSize e, digest := e.chunkDigest,
+    offset := e.offset }
+
+def cAppend (c : CState) (k : Key) (row : Chunk) : CState :=
+  { c with chunks := fun k' => if k' = k then c.chunks k ++ [row] else c.chunks k' }
+
+/-- what one entry does to the chunk bookkeeping of `initNodes`, given the id it was filed under -/
+def cStep (ms : List MEnt) (c : CState) (i : Nat) (e : Entry) : CState :=
+  if e.type = "chunk" then
+    if dbChunkSize c.lastEntSize e > 0 then
+      match c.lastEnt with
+      | some k => cAppend c k (dbRow c.lastEntSize e)
+      | none => c
+    else c
+  else
+    let id := if e.type = "hardlink" then resolveKey ms i else .ent i
+    let c' : CState := { c with lastEnt := some id, lastEntSize := e.size }
+    if e.type = "reg" ∧ e.size > 0 then cAppend c' id (dbRow c.lastEntSize e) else c'
+
+theorem admissible_parent {ms : List MEnt} (ok : TreeOK ms) {i : Nat} {d : Path}
+    (h : NonChunkAt ms i d) : Admissible ms i (parentDir d) := by
+  intro n h0 hn j m hm hc hp
+  unfold parentDir at hn hp
+  have hlen : n < d.length := by
+    rw [List.length_dropLast] at hn
+    have : d.length ≠ 0 := by
+      intro e; rw [e] at hn; omega
+    omega
+  refine ok.parents i d h n h0 hlen j m hm hc ?_
+  rw [hp, List.dropLast_eq_take, List.take_take]
+  congr 1; omega
+
+end SV.Toc
+
+namespace SV.Toc
+
+theorem dSetChild_cproj (s : DState) (pid : Key) (b : String) (id : Key) (isDir : Bool) :
+    (dSetChild s pid b id isDir).lastEnt = s.lastEnt ∧
+    (dSetChild s pid b id isDir).lastEntSize = s.lastEntSize ∧
+    (dSetChild s pid b id isDir).chunks = s.chunks := by
+  unfold dSetChild
+  cases isDir
+  · simp
+  · simp only [↓reduceIte]
+    split <;> simp [setNode]
+
+theorem step_plain {ms : List MEnt} (ok : TreeOK ms) {i : Nat} {sm : MState} {sd : DState} (m : MEnt)
+    (inv : Inv ms i sm sd [] (fun _ => 0))
+    (hm : ms[i]? = some m) (hc : m.e.type ≠ "chunk") (hh : m.e.type ≠ "hardlink")
+    (hname : cleanName m.e.name = m.path) :
+    ∃ sm' sd', pass2Step ms sm i m = some sm' ∧ dStep sd i m.e = some sd' ∧
+      Inv ms (i + 1) sm' sd' [] (fun _ => 0) ∧ cproj sd' = cStep ms (cproj sd) i m.e := by
+  have hnc : NonChunkAt ms i m.path := ⟨m, hm, hc, rfl⟩
+  have hdne : m.path ≠ [] := fun e => ok.noRoot i (e ▸ hnc)
+  have hsplit := path_split m.path hdne
+  -- the bucket of the entry is written first
+  have inv1 := inv_setNode_fresh inv i (Nat.le_refl _)
+    (writeAttr {} (attrOfEntry m.e (if m.e.type = "dir" then 2 else 1)))
+  have hadm : Admissible ms i (parentDir m.path).reverse.reverse := by
+    rw [List.reverse_reverse]; exact admissible_parent ok hnc
+  obtain ⟨sm2, sd2, pk, hg1, hg2, inv2, hlook2, hdir2, hroot2, _, hnodes2, hle2, hls2, hch2⟩ :=
+    goc ok i (parentDir m.path).reverse sm _ [] (fun _ => 0) inv1 (fun _ => rfl) hadm
+      (fun _ _ h => by cases h)
+  rw [List.reverse_reverse] at hlook2
+  have hnode2 : sd2.nodes (.ent i) = some (writeAttr {} (attr0 ms (.ent i))) := by
+    rw [hnodes2 i (Nat.le_refl _)]
+    simp [setNode, attr0, hm]
+  have inv3 := inv_link_entry ok (parentDir m.path) (baseName m.path) pk m inv2 hm hc hh hsplit
+    hlook2 hdir2 hroot2 hnode2
+  have hlookd : dGetIDByName sd m.path = none := by
+    unfold dGetIDByName
+    have := inv.walk m.path
+    simp only [List.not_mem_nil, ↓reduceIte] at this
+    rw [this]
+    have hl := (lastIdx_eq_some_iff ms ok.nodup _ i).mpr hnc
+    unfold look; rw [if_neg hdne, hl]; simp
+  -- the db step, in closed form
+  have hfound : (if m.e.type = "dir" then (some none : Option (Option (Key × DbAttr))) else some none) = some none := by
+    split <;> rfl
+  have hdstep : dStep sd i m.e = some
+      (if m.e.type = "reg" ∧ m.e.size > 0 then
+        addChunk { dSetChild sd2 pk (baseName m.path) (.ent i) (m.e.type = "dir") with
+                   lastEnt := some (.ent i), lastEntSize := m.e.size } (.ent i)
+          (dbRow sd.lastEntSize m.e)
+       else { dSetChild sd2 pk (baseName m.path) (.ent i) (m.e.type = "dir") with
+              lastEnt := some (.ent i), lastEntSize := m.e.size }) := by
+    unfold dStep
+    simp only [hname, hc, false_and, ↓reduceIte, hh, hdne, hlookd, hfound, hg2, or_false]
+    by_cases hreg : m.e.type = "reg" ∧ m.e.size > 0
+    · rw [if_pos hreg, if_pos hreg]
+      simp only [dbRow, dbChunkSize, hc, false_and, ↓reduceIte]
+    · rw [if_neg hreg, if_neg hreg]
+  have hX := dSetChild_cproj sd2 pk (baseName m.path) (.ent i) (m.e.type = "dir")
+  have hpass : pass2Step ms sm i m = some (mAddChild ms
+      { sm2 with nl := fun k => if k = .ent i then sm2.nl k + 1 else sm2.nl k } pk (baseName m.path) (.ent i)) := by
+    unfold pass2Step
+    rw [if_neg hc, if_neg hdne]
+    simp only [hg1, hh, ↓reduceIte]
+  refine ⟨_, _, hpass, hdstep, ?_, ?_⟩
+  · apply inv3.congr_db
+    · split <;> rfl
+    · split <;> rfl
+  · unfold cproj cStep
+    simp only [hc, ↓reduceIte, hh]
+    by_cases hreg : m.e.type = "reg" ∧ m.e.size > 0
+    · rw [if_pos hreg, if_pos hreg]
+      simp only [addChunk, cAppend, hX.2.2, hch2, setNode]
+    · rw [if_neg hreg, if_neg hreg]
+      simp only [hX.2.2, hch2, setNode]
+
+end SV.Toc
+
+namespace SV.Toc
+
+theorem inv_bump_org {ms : List MEnt} {i : Nat} {sm : MState} {sd : DState}
+    (inv : Inv ms i sm sd [] (fun _ => 0)) (org : Key) (bo : DbAttr) (hbo : sd.nodes org = some bo) :
+    Inv ms i sm (setNode sd org (bumpNumLink bo)) [] (fun k => if k = org then 1 else 0) := by
+  refine ⟨inv.kids, inv.walk, inv.impsNone, inv.pend, ?_, inv.noKids, inv.pendKids, inv.freshNl, inv.rootImp,
+    inv.kidsCreated⟩
+  intro k hk
+  obtain ⟨b', h1, h2, h3⟩ := inv.node k hk
+  by_cases hko : k = org
+  · subst hko
+    rw [hbo] at h1; cases h1
+    refine ⟨bumpNumLink bo, by simp [setNode], by rw [eraseNL_bump]; exact h2, ?_⟩
+    rw [readNumLink_bump, h3]; simp
+  · exact ⟨b', by simp [setNode, hko, h1], h2, by rw [h3]; simp [hko]⟩
+
+theorem created_mono_imps {ms : List MEnt} {i : Nat} {imps imps' : List Path} {k : Key}
+    (h : ∀ p, p ∈ imps → p ∈ imps') (hk : Created ms i imps k) : Created ms i imps' k := by
+  cases k with
+  | root => trivial
+  | ent j => exact hk
+  | imp p => exact ⟨h p hk.1, hk.2⟩
+
+theorem step_hardlink {ms : List MEnt} (ok : TreeOK ms) (hnl : (namesOf ms).Nodup) {i : Nat}
+    {sm : MState} {sd : DState} (m : MEnt)
+    (inv : Inv ms i sm sd [] (fun _ => 0))
+    (hm : ms[i]? = some m) (hh : m.e.type = "hardlink")
+    (hname : cleanName m.e.name = m.path) :
+    ∃ sm' sd', pass2Step ms sm i m = some sm' ∧ dStep sd i m.e = some sd' ∧
+      Inv ms (i + 1) sm' sd' [] (fun _ => 0) ∧ cproj sd' = cStep ms (cproj sd) i m.e := by
+  have hc : m.e.type ≠ "chunk" := by rw [hh]; decide
+  have hnd : m.e.type ≠ "dir" := by rw [hh]; decide
+  have hnr : m.e.type ≠ "reg" := by rw [hh]; decide
+  have hnc : NonChunkAt ms i m.path := ⟨m, hm, hc, rfl⟩
+  have hdne : m.path ≠ [] := fun e => ok.noRoot i (e ▸ hnc)
+  have hsplit := path_split m.path hdne
+  -- the target
+  obtain ⟨t, ht, hl, mt, hmt, hct, hdt⟩ := hardlink_target ok hm hh
+  obtain ⟨r, mr, hr1, hr2, hr3, hr4, hr5, hr6, _⟩ := resolveKey_spec ok i m hm hc
+  have hres : resolveKey ms i = resolveKey ms t := by
+    rw [resolveKey_unfold ok hm, if_pos hh]; simp only [hl]
+  have hrt : r ≤ t := by
+    obtain ⟨r', _, h1, h2, _⟩ := resolveKey_spec ok t mt hmt hct
+    rw [hres, h2] at hr2; cases hr2; exact h1
+  have hoc : ∀ imps, Created ms i imps (.ent r) := fun _ => ⟨by omega, mr, hr3, hr4, hr5⟩
+  have hod : ¬ IsDirKey ms (.ent r) := by
+    rintro ⟨m', h1, h2⟩; rw [hr3] at h1; cases h1; exact hr6 hh h2
+  obtain ⟨bo, hbo, _, _⟩ := inv.node (.ent r) (hoc _)
+  have hwalkt : dGetIDByName sd (cleanName m.e.linkName) = some (.ent r) := by
+    unfold dGetIDByName
+    have := inv.walk (cleanName m.e.linkName)
+    simp only [List.not_mem_nil, ↓reduceIte] at this
+    rw [this]
+    have hne : cleanName m.e.linkName ≠ [] := by
+      intro e
+      have := (lastIdx_eq_some_iff ms ok.nodup _ t).mp hl
+      rw [e] at this; exact ok.noRoot t this
+    unfold look; rw [if_neg hne, hl]; simp [ht, ← hres, hr2]
+  have inv1 := inv_bump_org inv (.ent r) bo hbo
+  have hadm : Admissible ms i (parentDir m.path).reverse.reverse := by
+    rw [List.reverse_reverse]; exact admissible_parent ok hnc
+  obtain ⟨sm2, sd2, pk, hg1, hg2, inv2, hlook2, hdir2, hroot2, hmono2, _, hle2, hls2, hch2⟩ :=
+    goc ok i (parentDir m.path).reverse sm _ [] _ inv1 (fun p => by simp) hadm
+      (fun _ _ h => by cases h)
+  rw [List.reverse_reverse] at hlook2
+  have inv3 := inv_link_hardlink ok (parentDir m.path) (baseName m.path) pk (.ent r) m inv2 hm hh hsplit
+    hlook2 hdir2 hroot2 hr2 (hoc _) hod
+  -- getSource
+  have hgs : ∀ s : MState, s.imps = sm2.imps →
+      mGetSource ms s (lenM ms s) 0 (.ent i) = some (.ent r) := by
+    intro s _
+    rw [← hr2]
+    apply mGetSource_ok ok s (lenM ms s) i m hm hc 0
+    have h1 := cnt_le_total ms i
+    have h2 := distinctNames_eq hnl
+    unfold lenM; omega
+  have hkt : keyType ms (.ent r) ≠ "dir" := isDirKey_keyType hod
+  have hpass : pass2Step ms sm i m = some (mAddChild ms
+      { sm2 with nl := (fun k => if k = Key.ent r then (if k = Key.ent i then sm2.nl k + 1 else sm2.nl k) + 1 else (if k = Key.ent i then sm2.nl k + 1 else sm2.nl k)) }
+      pk (baseName m.path) (Key.ent r)) := by
+    unfold pass2Step
+    rw [if_neg hc, if_neg hdne]
+    simp only [hg1, hh, ↓reduceIte]
+    rw [hgs { sm2 with nl := fun k => if k = Key.ent i then sm2.nl k + 1 else sm2.nl k } rfl]
+    simp only [hkt, ↓reduceIte]
+  have hX := dSetChild_cproj sd2 pk (baseName m.path) (.ent r) false
+  have hdstep : dStep sd i m.e = some
+      { dSetChild sd2 pk (baseName m.path) (.ent r) false with
+        lastEnt := some (.ent r), lastEntSize := m.e.size } := by
+    unfold dStep
+    simp [hname, hh, hdne, hwalkt, hbo, hg2]
+  refine ⟨_, _, hpass, hdstep, ?_, ?_⟩
+  · exact inv3.congr_db rfl rfl
+  · unfold cproj cStep
+    simp [hh, hr2, hX.2.2, hch2, setNode]
+
+theorem step_chunk {ms : List MEnt} (ok : TreeOK ms) {i : Nat} {sm : MState} {sd : DState} (m : MEnt)
+    (inv : Inv ms i sm sd [] (fun _ => 0))
+    (hm : ms[i]? = some m) (hc : m.e.type = "chunk") (hlast : sd.lastEnt.isSome) :
+    ∃ sd', pass2Step ms sm i m = some sm ∧ dStep sd i m.e = some sd' ∧
+      Inv ms (i + 1) sm sd' [] (fun _ => 0) ∧ cproj sd' = cStep ms (cproj sd) i m.e := by
+  have hno : ∀ p, ¬ NonChunkAt ms i p := by
+    rintro p ⟨m', hm', h2, _⟩; rw [hm] at hm'; cases hm'; exact h2 hc
+  have hcr : ∀ k, Created ms (i + 1) sm.imps k ↔ Created ms i sm.imps k := by
+    intro k
+    cases k with
+    | root => simp [Created]
+    | imp p => simp [Created]
+    | ent j =>
+      simp only [Created]
+      constructor
+      · rintro ⟨h1, m', h2, h3, h4⟩
+        refine ⟨?_, m', h2, h3, h4⟩
+        by_cases hji : j = i
+        · subst hji; rw [hm] at h2; cases h2; exact absurd hc h3
+        · omega
+      · rintro ⟨h1, h2⟩; exact ⟨by omega, h2⟩
+  have inv' : Inv ms (i + 1) sm sd [] (fun _ => 0) := by
+    refine ⟨inv.kids, ?_, inv.impsNone, inv.pend, ?_, ?_, inv.pendKids, ?_, inv.rootImp,
+      fun k kv hkv => (hcr _).mpr (inv.kidsCreated k kv hkv)⟩
+    · intro p; rw [inv.walk p, look_succ_ne ok i _ _ (hno p)]
+    · intro k hk; exact inv.node k ((hcr k).mp hk)
+    · intro k hk; exact inv.noKids k (fun ⟨h1, h2⟩ => hk ⟨(hcr k).mpr h1, h2⟩)
+    · intro j hj; exact inv.freshNl j (by omega)
+  obtain ⟨k, hk⟩ := Option.isSome_iff_exists.mp hlast
+  have hdstep : dStep sd i m.e = some
+      (if dbChunkSize sd.lastEntSize m.e > 0 then addChunk sd k (dbRow sd.lastEntSize m.e) else sd) := by
+    unfold dStep
+    have h1 : ¬ (m.e.type = "chunk" ∧ sd.lastEnt.isNone = true) := by
+      rw [hk]; simp
+    have hnr : m.e.type ≠ "reg" := by rw [hc]; decide
+    simp [hc, hk, dbRow, dbChunkSize]
+    exact (apply_ite some _ _ _).symm
+  refine ⟨_, (by unfold pass2Step; rw [if_pos hc]), hdstep, ?_, ?_⟩
+  · apply inv'.congr_db <;> (split <;> rfl)
+  · unfold cproj cStep
+    simp [hc, hk]
+    split <;> simp [addChunk, cAppend, hk]
+
+end SV.Toc
+
+namespace SV.Toc
+
+theorem enum_drop {α : Type} (l : List α) (i : Nat) (h : i < l.length) :
+    enumFrom' i (l.drop i) = (i, l[i]) :: enumFrom' (i + 1) (l.drop (i + 1)) := by
+  rw [List.drop_eq_getElem_cons h]; rfl
+
+theorem enum_drop_nil {α : Type} (l : List α) (i : Nat) (h : l.length ≤ i) :
+    enumFrom' i (l.drop i) = [] := by
+  rw [List.drop_eq_nil_of_le h]; rfl
+
+/-- the chunk bookkeeping over the first entries, indices starting at `k` -/
+def cRunFrom (ms : List MEnt) (c : CState) (k : Nat) : List Entry → CState
+  | [] => c
+  | e :: rest => cRunFrom ms (cStep ms c k e) (k + 1) rest
+
+def cRun (ms : List MEnt) (es : List Entry) (i : Nat) : CState := cRunFrom ms {} 0 (es.take i)
+
+theorem cRunFrom_append (ms : List MEnt) (c : CState) (k : Nat) (l1 l2 : List Entry) :
+    cRunFrom ms c k (l1 ++ l2) = cRunFrom ms (cRunFrom ms c k l1) (k + l1.length) l2 := by
+  induction l1 generalizing c k with
+  | nil => simp [cRunFrom]
+  | cons e rest ih =>
+    simp only [List.cons_append, cRunFrom, List.length_cons]
+    rw [ih]; congr 1; omega
+
+theorem cRun_succ (ms : List MEnt) (es : List Entry) (i : Nat) (h : i < es.length) :
+    cRun ms es (i + 1) = cStep ms (cRun ms es i) i es[i] := by
+  unfold cRun
+  rw [List.take_add_one, List.getElem?_eq_getElem h]
+  simp only [Option.toList_some]
+  rw [cRunFrom_append]
+  simp [cRunFrom, List.length_take, Nat.min_eq_left (Nat.le_of_lt h)]
+
+theorem cStep_lastEnt (ms : List MEnt) (c : CState) (i : Nat) (e : Entry) :
+    (c.lastEnt.isSome ∨ e.type ≠ "chunk") → (cStep ms c i e).lastEnt.isSome := by
+  intro h
+  unfold cStep
+  by_cases hc : e.type = "chunk"
+  · have hs : c.lastEnt.isSome := by rcases h with h | h; exact h; exact absurd hc h
+    obtain ⟨k, hk⟩ := Option.isSome_iff_exists.mp hs
+    simp only [hc, ↓reduceIte, hk]
+    split <;> simp [cAppend, hk]
+  · simp only [hc, ↓reduceIte]
+    split <;> simp [cAppend]
+
+/-- both interpreters run to the end of the TOC and stay related -/
+theorem run_sim {es : List Entry} (ok : TreeOK (pass1 es)) (hnl : (namesOf (pass1 es)).Nodup)
+    (hfirst : ∀ (i : Nat) (m : MEnt), (pass1 es)[i]? = some m → m.e.type = "chunk" →
+      ∃ j mj, j < i ∧ (pass1 es)[j]? = some mj ∧ mj.e.type ≠ "chunk") :
+    ∀ (d i : Nat) (sm : MState) (sd : DState), es.length - i = d → i ≤ es.length →
+      Inv (pass1 es) i sm sd [] (fun _ => 0) → cproj sd = cRun (pass1 es) es i →
+      ((∃ j mj, j < i ∧ (pass1 es)[j]? = some mj ∧ mj.e.type ≠ "chunk") → sd.lastEnt.isSome) →
+      ∃ smF sdF, pass2 (pass1 es) (enumFrom' i ((pass1 es).drop i)) sm = some smF ∧
+        dRun (enumFrom' i (es.drop i)) sd = .inl sdF ∧
+        Inv (pass1 es) es.length smF sdF [] (fun _ => 0) ∧ cproj sdF = cRun (pass1 es) es es.length := by
+  intro d
+  induction d with
+  | zero =>
+    intro i sm sd hd hi inv hcp _
+    have hie : i = es.length := by omega
+    subst hie
+    refine ⟨sm, sd, ?_, ?_, inv, hcp⟩
+    · rw [enum_drop_nil _ _ (by rw [pass1_length]; exact Nat.le_refl _)]; rfl
+    · rw [enum_drop_nil _ _ (Nat.le_refl _)]; rfl
+  | succ d ih =>
+    intro i sm sd hd hi inv hcp hlast
+    have hlt : i < es.length := by omega
+    have hltm : i < (pass1 es).length := by rw [pass1_length]; exact hlt
+    have hm : (pass1 es)[i]? = some (pass1 es)[i] := List.getElem?_eq_getElem hltm
+    obtain ⟨he, hname⟩ := pass1_getElem es i _ hm
+    have hee : es[i] = ((pass1 es)[i]).e := by
+      rw [List.getElem?_eq_getElem hlt] at he; exact Option.some.inj he
+    rw [enum_drop _ _ hltm, enum_drop _ _ hlt]
+    simp only [pass2, dRun]
+    -- one step
+    have hstep : ∃ sm' sd', pass2Step (pass1 es) sm i (pass1 es)[i] = some sm' ∧
+        dStep sd i es[i] = some sd' ∧ Inv (pass1 es) (i + 1) sm' sd' [] (fun _ => 0) ∧
+        cproj sd' = cStep (pass1 es) (cproj sd) i es[i] := by
+      rw [hee]
+      by_cases hc : ((pass1 es)[i]).e.type = "chunk"
+      · obtain ⟨sd', h1, h2, h3, h4⟩ := step_chunk ok _ inv hm hc (hlast (hfirst i _ hm hc))
+        exact ⟨sm, sd', h1, h2, h3, h4⟩
+      · by_cases hh : ((pass1 es)[i]).e.type = "hardlink"
+        · exact step_hardlink ok hnl _ inv hm hh (hname hc).symm
+        · exact step_plain ok _ inv hm hc hh (hname hc).symm
+    obtain ⟨sm', sd', h1, h2, h3, h4⟩ := hstep
+    rw [h1, h2]
+    have hcp' : cproj sd' = cRun (pass1 es) es (i + 1) := by
+      rw [cRun_succ _ _ _ hlt, ← hcp]; exact h4
+    have hlast' : (∃ j mj, j < i + 1 ∧ (pass1 es)[j]? = some mj ∧ mj.e.type ≠ "chunk") → sd'.lastEnt.isSome := by
+      intro ⟨j, mj, hj, hmj, hcj⟩
+      have : (cproj sd').lastEnt.isSome := by
+        rw [h4]
+        apply cStep_lastEnt
+        by_cases hji : j = i
+        · subst hji
+          right
+          rw [hm] at hmj; cases hmj
+          rw [hee]; exact hcj
+        · left
+          exact hlast ⟨j, mj, by omega, hmj, hcj⟩
+      exact this
+    exact ih (i + 1) sm' sd' (by omega) (by omega) h3 hcp' hlast'
+
+end SV.Toc
+
+namespace SV.Toc
+
+/-! # Part 3: the decidable fragment `SpecConforming` -/
+
+def validTypes : List String := ["dir", "reg", "symlink", "hardlink", "char", "block", "fifo", "chunk"]
+
+/-- a data entry names its chunk by `chunkDigest`, or carries no digest at all (then both stores
+report the empty digest) -/
+def digestOK (e : Entry) : Bool := e.chunkDigest ≠ "" || e.digest = ""
+
+/-- the size a chunk row stands for: `chunkSize`, or "up to the end of the file" when it is 0 -/
+def effSize (size : Int) (c : Entry) : Int := if c.chunkSize = 0 then size - c.chunkOffset else c.chunkSize
+
+/-- the `chunk` entries of a file tile `[start, size)` in order -/
+def contigOK (size : Int) : Int → List Entry → Bool
+  | start, [] => start = size
+  | start, c :: cs =>
+    c.chunkOffset = start && c.size = 0 && digestOK c && effSize size c > 0 &&
+      contigOK size (start + effSize size c) cs
+
+/-- the size the first row (the `reg` entry itself) stands for -/
+def regEff (e : Entry) : Int := if e.chunkSize = 0 then e.size else e.chunkSize
+
+/-- a regular file and the chunk entries filed under its name -/
+def fileOK (e : Entry) (run : List Entry) : Bool :=
+  e.size ≥ 0 && digestOK e &&
+    (if e.size = 0 then run.isEmpty && e.chunkSize = 0 && e.offset = 0
+     else e.chunkOffset = 0 && regEff e > 0 && contigOK e.size (regEff e) run)
+
+/-- the chunk entries filed under the name `p` (pass 1 gives a chunk the name of the entry it
+follows) -/
+def chunksOf (ms : List MEnt) (p : Path) : List Entry :=
+  (ms.filter fun m => m.e.type = "chunk" ∧ m.path = p).map (·.e)
+
+/-- every proper, non-empty prefix of the name `p` of entry `i` is either no entry's name, or the
+name of a directory entry placed before `i` -/
+def ancestorsOK (ms : List MEnt) (i : Nat) (p : Path) : Prop :=
+  ∀ n (_ : n < p.length), 0 < n → ∀ j (hj : j < ms.length), ms[j].e.type ≠ "chunk" →
+    ms[j].path = p.take n → ms[j].e.type = "dir" ∧ j < i
+
+instance (ms : List MEnt) (i : Nat) (p : Path) : Decidable (ancestorsOK ms i p) := by
+  unfold ancestorsOK; infer_instance
+
+/-- The TOCs on which the two stores are proved to agree.  Everything is decidable.
+  * known entry types only;
+  * no entry for the root directory itself, at least one entry;
+  * names (after cleaning: `./`, `../`, `//` spellings are fine) are used once;
+  * a directory entry precedes everything below it, any other ancestor is implicit;
+  * hardlinks point (by any spelling) at an earlier entry that is not a directory — possibly
+    itself a hardlink;
+  * `chunk` entries directly follow their file, and together with the `reg` entry tile the file;
+    per-file digests may be missing; entries without data carry no offset;
+  * xattr keys are unique (any values, also empty ones). -/
+structure SpecConforming (es : List Entry) : Prop where
+  types : ∀ i (h : i < es.length), es[i].type ∈ validTypes
+  nonEmpty : ∃ i, ∃ h : i < es.length, es[i].type ≠ "chunk"
+  noRoot : ∀ i (h : i < (pass1 es).length), (pass1 es)[i].e.type ≠ "chunk" → (pass1 es)[i].path ≠ []
+  names : (namesOf (pass1 es)).Nodup
+  parents : ∀ i (hi : i < (pass1 es).length), (pass1 es)[i].e.type ≠ "chunk" →
+    ancestorsOK (pass1 es) i (pass1 es)[i].path
+  hardlinks : ∀ i (hi : i < (pass1 es).length), (pass1 es)[i].e.type = "hardlink" →
+    ∃ j, ∃ hj : j < (pass1 es).length, j < i ∧ (pass1 es)[j].e.type ≠ "chunk" ∧
+      (pass1 es)[j].path = cleanName (pass1 es)[i].e.linkName ∧ (pass1 es)[j].e.type ≠ "dir"
+  chunkAfterData : ∀ i (h : i < es.length), es[i].type = "chunk" →
+    ∃ h0 : 0 < i, es[i - 1].type = "reg" ∨ es[i - 1].type = "chunk"
+  files : ∀ i (hi : i < (pass1 es).length), (pass1 es)[i].e.type = "reg" →
+    fileOK (pass1 es)[i].e (chunksOf (pass1 es) (pass1 es)[i].path) = true
+  noOffset : ∀ i (h : i < es.length), es[i].type ≠ "reg" → es[i].type ≠ "chunk" → es[i].offset = 0
+  xattrs : ∀ i (h : i < es.length), (es[i].xattrs.map Prod.fst).Nodup
+
+instance (es : List Entry) : Decidable (SpecConforming es) := by
+  exact decidable_of_iff
+    ((∀ i (h : i < es.length), es[i].type ∈ validTypes) ∧
+     (∃ i, ∃ h : i < es.length, es[i].type ≠ "chunk") ∧
+     (∀ i (h : i < (pass1 es).length), (pass1 es)[i].e.type ≠ "chunk" → (pass1 es)[i].path ≠ []) ∧
+     (namesOf (pass1 es)).Nodup ∧
+     (∀ i (hi : i < (pass1 es).length), (pass1 es)[i].e.type ≠ "chunk" →
+        ancestorsOK (pass1 es) i (pass1 es)[i].path) ∧
+     (∀ i (hi : i < (pass1 es).length), (pass1 es)[i].e.type = "hardlink" →
+        ∃ j, ∃ hj : j < (pass1 es).length, j < i ∧ (pass1 es)[j].e.type ≠ "chunk" ∧
+          (pass1 es)[j].path = cleanName (pass1 es)[i].e.linkName ∧ (pass1 es)[j].e.type ≠ "dir") ∧
+     (∀ i (h : i < es.length), es[i].type = "chunk" →
+        ∃ h0 : 0 < i, es[i - 1].type = "reg" ∨ es[i - 1].type = "chunk") ∧
+     (∀ i (hi : i < (pass1 es).length), (pass1 es)[i].e.type = "reg" →
+        fileOK (pass1 es)[i].e (chunksOf (pass1 es) (pass1 es)[i].path) = true) ∧
+     (∀ i (h : i < es.length), es[i].type ≠ "reg" → es[i].type ≠ "chunk" → es[i].offset = 0) ∧
+     (∀ i (h : i < es.length), (es[i].xattrs.map Prod.fst).Nodup))
+    ⟨fun ⟨a, b, c, d, e, f, g, h, i, j⟩ => ⟨a, b, c, d, e, f, g, h, i, j⟩,
+     fun ⟨a, b, c, d, e, f, g, h, i, j⟩ => ⟨a, b, c, d, e, f, g, h, i, j⟩⟩
+
+end SV.Toc
+
+namespace SV.Toc
+
+theorem get_of_getElem? {α : Type} {l : List α} {i : Nat} {a : α} (h : l[i]? = some a) :
+    ∃ hi : i < l.length, l[i] = a := by
+  rw [List.getElem?_eq_some_iff] at h; exact h
+
+theorem spec_treeOK {es : List Entry} (sc : SpecConforming es) : TreeOK (pass1 es) := by
+  refine ⟨namesNodup_of_list _ sc.names, ?_, ?_, ?_⟩
+  · rintro j ⟨m, hm, hc, hp⟩
+    obtain ⟨hj, e⟩ := get_of_getElem? hm
+    subst e
+    exact sc.noRoot j hj hc hp
+  · rintro i p ⟨m, hm, hc, hp⟩ n h0 hn j mj hmj hcj hpj
+    obtain ⟨hi, e⟩ := get_of_getElem? hm
+    obtain ⟨hj, e'⟩ := get_of_getElem? hmj
+    subst e e'
+    rw [← hp] at hn hpj
+    exact sc.parents i hi hc n hn h0 j hj hcj hpj
+  · intro i m hm hh
+    obtain ⟨hi, e⟩ := get_of_getElem? hm
+    subst e
+    obtain ⟨j, hj, h1, h2, h3, h4⟩ := sc.hardlinks i hi hh
+    exact ⟨j, h1, _, List.getElem?_eq_getElem hj, h2, h3, h4⟩
+
+theorem spec_first {es : List Entry} (sc : SpecConforming es) :
+    ∀ (i : Nat) (m : MEnt), (pass1 es)[i]? = some m → m.e.type = "chunk" →
+      ∃ j mj, j < i ∧ (pass1 es)[j]? = some mj ∧ mj.e.type ≠ "chunk" := by
+  intro i
+  induction i using Nat.strongRecOn with
+  | _ i ih =>
+    intro m hm hc
+    obtain ⟨he, _⟩ := pass1_getElem es i m hm
+    obtain ⟨hi, e⟩ := get_of_getElem? he
+    obtain ⟨h0, hprev⟩ := sc.chunkAfterData i hi (by rw [e]; exact hc)
+    have hpl : i - 1 < (pass1 es).length := by rw [pass1_length]; omega
+    have hmp : (pass1 es)[i - 1]? = some (pass1 es)[i - 1] := List.getElem?_eq_getElem hpl
+    obtain ⟨hep, _⟩ := pass1_getElem es (i - 1) _ hmp
+    obtain ⟨_, ep⟩ := get_of_getElem? hep
+    rcases hprev with hr | hch
+    · refine ⟨i - 1, _, by omega, hmp, ?_⟩
+      rw [← ep, hr]; decide
+    · obtain ⟨j, mj, hj, h1, h2⟩ := ih (i - 1) (by omega) _ hmp (by rw [← ep]; exact hch)
+      exact ⟨j, mj, by omega, h1, h2⟩
+
+/-! ## Initial states -/
+
+theorem init_inv (ms : List MEnt) :
+    Inv ms 0 { nl := initNl ms } dInit [] (fun _ => 0) := by
+  refine ⟨fun _ => rfl, ?_, ?_, ?_, ?_, ?_, ?_, fun _ _ => rfl, ?_, ?_⟩
+  · intro p
+    cases p with
+    | nil => simp [walkKids, look]
+    | cons b rest =>
+      simp only [walkKids, dInit, getKid, List.not_mem_nil, ↓reduceIte]
+      unfold look
+      simp only [reduceCtorEq, ↓reduceIte, List.not_mem_nil]
+      split
+      · simp
+      · rfl
+  · intro p hp; cases hp
+  · intro p hp; cases hp
+  · intro k hk
+    cases k with
+    | root =>
+      refine ⟨writeAttr {} rootAttr, by simp [dInit], rfl, ?_⟩
+      rw [readNumLink_root]; simp [nlEff]
+    | imp p => exact absurd hk.1 (by simp)
+    | ent j => exact absurd hk.1 (by omega)
+  · intro k _; rfl
+  · intro p hp; cases hp
+  · intro h; exact absurd rfl h
+  · intro k kv hkv; cases hkv
+
+end SV.Toc
+
+namespace SV.Toc
+
+/-! # Part 4: from agreeing nodes to equal views -/
+
+/-- what `view` looks at in a node -/
+structure NodeAgree (n1 n2 : Node) : Prop where
+  ok1 : n1.ok = true
+  ok2 : n2.ok = true
+  err1 : n1.kidsErr = false
+  err2 : n2.kidsErr = false
+  kids : n1.kids = n2.kids
+  attr : normalise n1.attr = normalise n2.attr
+  mode : n1.attr.mode = n2.attr.mode
+  size : n1.attr.size = n2.attr.size
+  offset : n1.offset = n2.offset
+  openOk : n1.openOk = n2.openOk
+  lookup : ∀ x, 0 ≤ x → n1.chunks.lookup x = n2.chunks.lookup x
+
+/-- the trees agree on a set of keys closed under children -/
+structure TreesAgree (t1 t2 : Tree) (C : Key → Prop) : Prop where
+  root : t1.root = t2.root
+  rootC : C t1.root
+  node : ∀ k, C k → NodeAgree (t1.node k) (t2.node k)
+  closed : ∀ k, C k → ∀ kv, kv ∈ (t1.node k).kids → C kv.2
+
+theorem mem_insertKid {kv x : String × Key} {l : Kids} : x ∈ insertKid kv l ↔ x = kv ∨ x ∈ l := by
+  induction l with
+  | nil => simp [insertKid]
+  | cons y ys ih =>
+    unfold insertKid
+    split
+    · simp
+    · simp only [List.mem_cons, ih]
+      constructor
+      · rintro (h | h | h)
+        · exact Or.inr (Or.inl h)
+        · exact Or.inl h
+        · exact Or.inr (Or.inr h)
+      · rintro (h | h | h)
+        · exact Or.inr (Or.inl h)
+        · exact Or.inl h
+        · exact Or.inr (Or.inr h)
+
+theorem mem_sortKids {x : String × Key} {l : Kids} : x ∈ sortKids l ↔ x ∈ l := by
+  induction l with
+  | nil => simp [sortKids]
+  | cons y ys ih =>
+    show x ∈ insertKid y (sortKids ys) ↔ _
+    rw [mem_insertKid, ih]; simp
+
+theorem listing_agree {t1 t2 : Tree} {C : Key → Prop} (ag : TreesAgree t1 t2 C) :
+    ∀ (fuel : Nat) (p : Path) (k : Key) (seen : List Key), C k →
+      listing t1 fuel p k seen = listing t2 fuel p k seen ∧
+      ∀ pk, pk ∈ (listing t1 fuel p k seen).1 → C pk.2 := by
+  intro fuel
+  induction fuel with
+  | zero =>
+    intro p k seen hk
+    have := ag.node k hk
+    simp only [listing, this.ok1, this.ok2, ↓reduceIte, true_and]
+    intro pk hpk; simp at hpk; rw [hpk]; exact hk
+  | succ fuel ih =>
+    intro p k seen hk
+    have na := ag.node k hk
+    simp only [listing, na.ok1, na.ok2, ↓reduceIte, na.err1, na.err2,
+      Bool.false_eq_true, Bool.not_eq_true, Bool.true_eq_false]
+    by_cases hs : k ∈ seen
+    · simp only [hs, ↓reduceIte, true_and]
+      intro pk hpk; simp at hpk; rw [hpk]; exact hk
+    · simp only [hs, ↓reduceIte]
+      rw [← na.kids]
+      -- the fold over the sorted children
+      have hfold : ∀ (l : Kids) (acc : List (Path × Key) × List Key), (∀ kv, kv ∈ l → C kv.2) →
+          (∀ pk, pk ∈ acc.1 → C pk.2) →
+          l.foldl (fun (acc : List (Path × Key) × List Key) (bc : String × Key) =>
+              let r := listing t1 fuel (p ++ [bc.1]) bc.2 acc.2
+              (acc.1 ++ r.1, r.2)) acc =
+          l.foldl (fun (acc : List (Path × Key) × List Key) (bc : String × Key) =>
+              let r := listing t2 fuel (p ++ [bc.1]) bc.2 acc.2
+              (acc.1 ++ r.1, r.2)) acc ∧
+          ∀ pk, pk ∈ (l.foldl (fun (acc : List (Path × Key) × List Key) (bc : String × Key) =>
+              let r := listing t1 fuel (p ++ [bc.1]) bc.2 acc.2
+              (acc.1 ++ r.1, r.2)) acc).1 → C pk.2 := by
+        intro l
+        induction l with
+        | nil => intro acc _ hacc; exact ⟨rfl, hacc⟩
+        | cons x xs ihl =>
+          intro acc hl hacc
+          simp only [List.foldl_cons]
+          have hx := ih (p ++ [x.1]) x.2 acc.2 (hl x (by simp))
+          rw [← hx.1]
+          apply ihl
+          · intro kv hkv; exact hl kv (by simp [hkv])
+          · intro pk hpk
+            simp only [List.mem_append] at hpk
+            rcases hpk with h | h
+            · exact hacc pk h
+            · exact hx.2 pk h
+      have hkidsC : ∀ kv, kv ∈ sortKids (t1.node k).kids → C kv.2 :=
+        fun kv hkv => ag.closed k hk kv (mem_sortKids.mp hkv)
+      have := hfold (sortKids (t1.node k).kids) ([], k :: seen) hkidsC (by intro pk h; cases h)
+      refine ⟨by rw [this.1], ?_⟩
+      intro pk hpk
+      rcases List.mem_cons.mp hpk with h | h
+      · rw [h]; exact hk
+      · exact this.2 pk h
+
+end SV.Toc
+
+namespace SV.Toc
+
+theorem probeWalk_agree (tab1 tab2 : ChunkTab)
+    (h : ∀ x, 0 ≤ x → tab1.lookup x = tab2.lookup x) :
+    ∀ (fuel : Nat) (off : Int) (acc : List Int), 0 ≤ off →
+      probeOffsets.walk tab1 fuel off acc = probeOffsets.walk tab2 fuel off acc := by
+  intro fuel
+  induction fuel with
+  | zero => intro off acc _; rfl
+  | succ fuel ih =>
+    intro off acc hoff
+    simp only [probeOffsets.walk]
+    rw [h off hoff]
+    cases tab2.lookup off with
+    | none => rfl
+    | some r =>
+      obtain ⟨co, cs, d⟩ := r
+      simp only
+      split
+      · rfl
+      · rename_i hc
+        apply ih
+        omega
+
+theorem probes_agree (tab1 tab2 : ChunkTab) (size : Int)
+    (h : ∀ x, 0 ≤ x → tab1.lookup x = tab2.lookup x) :
+    ((sortDedupInts (probeOffsets tab1 size)).filter (· ≥ 0)).map (fun x => (x, tab1.lookup x)) =
+    ((sortDedupInts (probeOffsets tab2 size)).filter (· ≥ 0)).map (fun x => (x, tab2.lookup x)) := by
+  have hp : probeOffsets tab1 size = probeOffsets tab2 size := by
+    unfold probeOffsets
+    exact probeWalk_agree tab1 tab2 h 2000 0 _ (Int.le_refl 0)
+  rw [hp]
+  apply List.map_congr_left
+  intro x hx
+  have : 0 ≤ x := by
+    have := (List.mem_filter.mp hx).2
+    simpa using this
+  rw [h x this]
+
+theorem view_agree {t1 t2 : Tree} {C : Key → Prop} (ag : TreesAgree t1 t2 C) : view t1 = view t2 := by
+  unfold view
+  have hl := listing_agree ag maxDepth [] t1.root [] ag.rootC
+  rw [← ag.root, ← hl.1]
+  simp only
+  apply List.map_congr_left
+  intro pk hpk
+  have hC := hl.2 pk hpk
+  have na := ag.node pk.2 hC
+  obtain ⟨p, k⟩ := pk
+  simp only [nodeView]
+  have hls : (sortKids (t1.node k).kids).map (fun kv => (kv.1, typeChar (t1.node kv.2).attr.mode)) =
+      (sortKids (t2.node k).kids).map (fun kv => (kv.1, typeChar (t2.node kv.2).attr.mode)) := by
+    rw [← na.kids]
+    apply List.map_congr_left
+    intro kv hkv
+    have := ag.node kv.2 (ag.closed k hC kv (mem_sortKids.mp hkv))
+    rw [this.mode]
+  have hpr := probes_agree (t1.node k).chunks (t2.node k).chunks (t1.node k).attr.size na.lookup
+  rw [hls, hpr, na.ok1, na.ok2, na.err1, na.err2, na.attr, na.offset, na.openOk, na.mode, na.kids, na.size]
+
+end SV.Toc
+
+namespace SV.Toc
+
+/-! # Part 5: attributes -/
+
+theorem goFileMode_lt (t : String) (m : Int) : goFileMode t m < 4294967296 := by
+  unfold goFileMode
+  simp only [modeSetuid, modeSetgid, modeSticky, modeDir, modeSymlink, modeDevice, modeCharDevice,
+    modeNamedPipe]
+  have hperm : ((m % 4096).toNat) % 512 < 512 := Nat.mod_lt _ (by decide)
+  generalize ((m % 4096).toNat) % 512 = perm at hperm
+  generalize (m % 4096).toNat = mm
+  split <;> split <;> split <;> (repeat' split) <;> omega
+
+theorem attr0_mode_lt (ms : List MEnt) (k : Key) : (attr0 ms k).mode < 4294967296 := by
+  cases k with
+  | root => show rootAttr.mode < 4294967296; decide
+  | imp p => show rootAttr.mode < 4294967296; decide
+  | ent j =>
+    simp only [attr0]
+    split
+    · exact goFileMode_lt _ _
+    · decide
+
+/-- the db bucket of a node against the attribute record it was written from, when only the
+link count has been updated since -/
+theorem attr_agree (b : DbAttr) (a0 : Attr) (nl : Int)
+    (he : eraseNL b = eraseNL (writeAttr {} a0)) (hn : readNumLink b = nl)
+    (hm : a0.mode < 4294967296) (hx : (a0.xattrs.map Prod.fst).Nodup) :
+    normalise (readAttr b) = normalise { a0 with numLink := nl } ∧
+      (readAttr b).mode = a0.mode ∧ (readAttr b).size = a0.size := by
+  have hrt := readAttr_writeAttr a0 hm hx
+  have h1 : b.size = (writeAttr {} a0).size := by have := congrArg DbAttr.size he; exact this
+  have h2 : b.uid = (writeAttr {} a0).uid := by have := congrArg DbAttr.uid he; exact this
+  have h3 : b.gid = (writeAttr {} a0).gid := by have := congrArg DbAttr.gid he; exact this
+  have h4 : b.devMajor = (writeAttr {} a0).devMajor := by have := congrArg DbAttr.devMajor he; exact this
+  have h5 : b.devMinor = (writeAttr {} a0).devMinor := by have := congrArg DbAttr.devMinor he; exact this
+  have h6 : b.mtime = (writeAttr {} a0).mtime := by have := congrArg DbAttr.mtime he; exact this
+  have h7 : b.linkName = (writeAttr {} a0).linkName := by have := congrArg DbAttr.linkName he; exact this
+  have h8 : b.mode = (writeAttr {} a0).mode := by have := congrArg DbAttr.mode he; exact this
+  have h9 : b.xFirst = (writeAttr {} a0).xFirst := by have := congrArg DbAttr.xFirst he; exact this
+  have h10 : b.xExtra = (writeAttr {} a0).xExtra := by have := congrArg DbAttr.xExtra he; exact this
+  have hnl : normNlink (readAttr b).numLink = normNlink nl := by
+    unfold readAttr readNumLink at *
+    simp only
+    cases hb : b.numLink with
+    | none => rw [hb] at hn; simp at hn; rw [← hn]; exact normNlink_one_zero
+    | some n => rw [hb] at hn; simp at hn; rw [← hn]
+  have hmode : (readAttr (writeAttr {} a0)).mode = a0.mode := by
+    unfold writeAttr readAttr
+    cases a0.xattrs with
+    | nil => by_cases h : a0.mode = 0 <;> simp [h] <;> omega
+    | cons f r => cases r <;> (by_cases h : a0.mode = 0 <;> simp [h] <;> omega)
+  have hsize : (readAttr (writeAttr {} a0)).size = a0.size := by
+    unfold writeAttr readAttr putNZ
+    cases a0.xattrs with
+    | nil => by_cases h : a0.size = 0 <;> simp [h]
+    | cons f r => cases r <;> (by_cases h : a0.size = 0 <;> simp [h])
+  have hmodeb : (readAttr b).mode = (readAttr (writeAttr {} a0)).mode := by
+    simp only [readAttr, h8]
+  have hsizeb : (readAttr b).size = (readAttr (writeAttr {} a0)).size := by
+    simp only [readAttr, h1]
+  refine ⟨?_, by rw [hmodeb, hmode], by rw [hsizeb, hsize]⟩
+  have hn0 : normalise { a0 with numLink := nl } = { normalise a0 with nlink := normNlink nl } := rfl
+  have hrb : readAttr b = { readAttr (writeAttr {} a0) with numLink := (readAttr b).numLink } := by
+    simp only [readAttr, h1, h2, h3, h4, h5, h6, h7, h8, h9, h10]
+  have hn1 : normalise { readAttr (writeAttr {} a0) with numLink := (readAttr b).numLink } =
+      { normalise (readAttr (writeAttr {} a0)) with nlink := normNlink (readAttr b).numLink } := rfl
+  rw [hn0, ← hrt, ← hnl, hrb, hn1]
 
 end SV.Toc
